@@ -233,6 +233,8 @@ type scenario struct {
 	Archive  bool     `json:"archive"`
 	Delete   bool     `json:"delete"`
 	Restarts int      `json:"restarts"`
+	// Conflicts: budget of foreign writes landing just before a write of a pass
+	Conflicts int `json:"conflicts"`
 }
 
 func (sc scenario) name() string {
@@ -284,6 +286,7 @@ func system(sc scenario) *world.System {
 			w.Budget["archive"] = 1
 			w.Budget["delete"] = 1
 			w.Budget["restart"] = sc.Restarts
+			w.Budget["conflict"] = sc.Conflicts
 			return w
 		},
 		Events: func(w *world.World) []world.Event {
@@ -291,6 +294,7 @@ func system(sc scenario) *world.System {
 			evs = append(evs, userEvents(w, sc, "r1")...)
 			evs = append(evs, osw.GCEvent(w)...)
 			evs = append(evs, osw.CrashEvents(w)...)
+			evs = append(evs, osw.ConflictEventsAll(w)...)
 			return evs
 		},
 		Check: Check,
@@ -310,8 +314,8 @@ func scenarios(quick bool) []scenario {
 		{Kind: "chain", N: 1, Classes: two, Archive: true},
 		{Kind: "chain", N: 1, Classes: two, Pauses: 1, Delete: true},
 		// archival interrupted by a crash between any two calls (e.g. finalizer removed, status not yet written)
-		{Kind: "single", N: 2, Mask: 0, Classes: []string{"ready"}, Archive: true, Restarts: 1},
-		{Kind: "takeover", N: 1, Classes: []string{"ready"}, Archive: true, Restarts: 1},
+		{Kind: "single", N: 2, Mask: 0, Classes: []string{"ready"}, Archive: true, Restarts: 1, Conflicts: 1},
+		{Kind: "takeover", N: 1, Classes: []string{"ready"}, Archive: true, Restarts: 1, Conflicts: 1},
 	}
 	if !quick {
 		out = append(out,
@@ -327,7 +331,7 @@ func scenarios(quick bool) []scenario {
 
 func run(o checks.Opts) *report.Report {
 	rep := report.New("C06", "bfs")
-	rep.Rule = "explicit-state BFS: reconcile(ObjectSets, ObjectSetPhases), workload status changes, user pause/unpause/archive/delete, garbage collector, operator crash before request i; systems: single ObjectSet (2-3 phases, local/delegated) a two-revision handover chain r1{a,b}->r2{a,c}, and a complete takeover r1{a}->r2{a,c} (r1's archival teardown finishes in its first pass) with crashes; monitor on every status write of the ObjectSet controller"
+	rep.Rule = "explicit-state BFS: reconcile(ObjectSets, ObjectSetPhases), workload status changes, user pause/unpause/archive/delete, garbage collector, operator crash before request i, a foreign write landing before write i of a pass (update conflict); systems: single ObjectSet (2-3 phases, local/delegated) a two-revision handover chain r1{a,b}->r2{a,c}, and a complete takeover r1{a}->r2{a,c} (r1's archival teardown finishes in its first pass) with crashes; monitor on every status write of the ObjectSet controller"
 	scs := scenarios(o.Quick())
 	rep.Bounds["systems"] = len(scs)
 	for i, sc := range scs {
